@@ -149,7 +149,7 @@ func (s *skSigner) Sign(rnd io.Reader, data []byte) (*ssh.Signature, error) {
 // algOnly hides everything but the AlgorithmSigner interface.
 type algOnly struct{ s ssh.AlgorithmSigner }
 
-func (a algOnly) PublicKey() ssh.PublicKey { return a.s.PublicKey() }
+func (a algOnly) PublicKey() ssh.PublicKey                                { return a.s.PublicKey() }
 func (a algOnly) Sign(rnd io.Reader, data []byte) (*ssh.Signature, error) { return a.s.Sign(rnd, data) }
 func (a algOnly) SignWithAlgorithm(rnd io.Reader, data []byte, alg string) (*ssh.Signature, error) {
 	return a.s.SignWithAlgorithm(rnd, data, alg)
@@ -235,4 +235,3 @@ func (v *caVariant) signBody(rnd io.Reader, data []byte) ([]byte, error) {
 	}
 	return (&cr.W{}).S(sig.Format).Str(sig.Blob).Raw(sig.Rest).B, nil
 }
-
